@@ -149,3 +149,192 @@ Proof.
   - intros H. destruct fixed; [reflexivity|]. exfalso. exact (src_examine_not_unrepaired (H _ _)).
   - intros ->. exact src_examine_is_model.
 Qed.
+
+(* ================= run_next_retrospective_step / run_next_prospective_step ================= *)
+
+(* ---- the directory a call clears and re-creates is not one it reads afterwards ---- *)
+Lemma lookup_update {A} k k' (g : A -> A) (l : list (Z * A)) :
+  lookup k (update k' g l) = if k' =? k then option_map g (lookup k l) else lookup k l.
+Proof.
+  induction l as [|[k0 a] l IH]; cbn [update lookup].
+  - destruct (k' =? k); reflexivity.
+  - destruct (Z.eqb_spec k0 k') as [->|N]; cbn [lookup].
+    + destruct (k' =? k); reflexivity.
+    + destruct (Z.eqb_spec k0 k) as [->|N2].
+      * destruct (Z.eqb_spec k' k) as [->|_]; [congruence | reflexivity].
+      * exact IH.
+Qed.
+
+Lemma lookup_remove_key {A} k k' (l : list (Z * A)) : k <> k' -> lookup k (remove_key k' l) = lookup k l.
+Proof.
+  intros N. unfold remove_key. induction l as [|[k0 a] l IH]; cbn [filter lookup fst]; [reflexivity|].
+  destruct (Z.eqb_spec k0 k') as [->|N2]; cbn [negb lookup].
+  - destruct (Z.eqb_spec k' k) as [->|_]; [congruence | exact IH].
+  - destruct (k0 =? k); [reflexivity | exact IH].
+Qed.
+
+Lemma lookup_ensure {A} k k' (d : A) (l : list (Z * A)) : k <> k' -> lookup k (ensure k' d l) = lookup k l.
+Proof.
+  intros N. unfold ensure. destruct (lookup k' l); [reflexivity|].
+  rewrite lookup_app. destruct (lookup k l); [reflexivity|]. cbn [lookup].
+  destruct (Z.eqb_spec k' k) as [->|_]; [congruence | reflexivity].
+Qed.
+
+Lemma get_plate_rmtree f s s' : s' <> s -> get_plate (rmtree s f) s' = get_plate f s'.
+Proof.
+  intros N. unfold get_plate, rmtree. rewrite lookup_update.
+  destruct (Z.eqb_spec (fst s) (fst s')) as [E|_]; [|reflexivity].
+  destruct (lookup (fst s') f) as [d|]; cbn [option_map]; [|reflexivity].
+  apply lookup_remove_key. intros E2. apply N. destruct s, s'; cbn [fst snd] in *; congruence.
+Qed.
+
+Lemma get_plate_mk_iter f i s' : get_plate (mk_iter i f) s' = get_plate f s'.
+Proof.
+  unfold get_plate, mk_iter, ensure.
+  match goal with |- context [match ?X with Some _ => f | None => _ end] => destruct X eqn:E end; [reflexivity|].
+  rewrite lookup_app. destruct (lookup (fst s') f) eqn:E2; [reflexivity|]. cbn [lookup].
+  destruct (i =? fst s'); reflexivity.
+Qed.
+
+Lemma get_plate_mk_plate f s s' : s' <> s -> get_plate (mk_plate s f) s' = get_plate f s'.
+Proof.
+  intros N. unfold get_plate, mk_plate. rewrite lookup_update.
+  destruct (Z.eqb_spec (fst s) (fst s')) as [E|_]; [|reflexivity].
+  destruct (lookup (fst s') f) as [d|]; cbn [option_map]; [|reflexivity].
+  apply lookup_ensure. intros E2. apply N. destruct s, s'; cbn [fst snd] in *; congruence.
+Qed.
+
+Lemma get_plate_after f s s' :
+  s' <> s -> get_plate (tree_after f [ARmTree s; AMkIter (fst s); AMkPlate s]) s' = get_plate f s'.
+Proof.
+  intros N. cbn [tree_after fold_left apply_action].
+  now rewrite get_plate_mk_plate, get_plate_mk_iter, get_plate_rmtree.
+Qed.
+
+Lemma get_selected_list f i : match get_selected f i with Some l => l | None => [] end = selected_plates f i.
+Proof. unfold get_selected. destruct (selected_plates f i); reflexivity. Qed.
+
+(* the part of both functions after the directory has been cleared and re-created, for a step that is not (i, 0):
+   get_theta_and_dist_chunks on plate_0 of the iteration, then run_subsequent_batch_plate *)
+Lemma next_step_tail f i j scr :
+  (j =? 0) = false ->
+  (dos r <- theta_chunks (tree_after f [ARmTree (i, j); AMkIter i; AMkPlate (i, j)]) [ARmTree (i, j); AMkIter i; AMkPlate (i, j)] (i, 0);
+   dos acts <- launch_cmd [ARmTree (i, j); AMkIter i; AMkPlate (i, j)] (i, j) (next_cmd scr r (get_selected f i));
+   SOk acts)
+  = if has_thetas_dist f (i, 0)
+    then match scr with
+         | Some sp => SOk ([ARmTree (i, j); AMkIter i; AMkPlate (i, j)] ++ [ALaunch (i, j) (LNext sp (i, 0) (selected_plates f i))])
+         | None => SRaised [ARmTree (i, j); AMkIter i; AMkPlate (i, j)] 9
+         end
+    else SRaised [ARmTree (i, j); AMkIter i; AMkPlate (i, j)] 2.
+Proof.
+  intros Ej.
+  assert (N : (i, 0) <> (i, j)) by (intros E; injection E as E; subst j; discriminate Ej).
+  pose proof (get_plate_after f (i, j) (i, 0) N) as H. cbn [fst] in H.
+  unfold theta_chunks, has_thetas_dist. rewrite H.
+  destruct (match get_plate f (i, 0) with Some d => f_thetas d && f_dist d | None => false end); cbn [sbind]; [|reflexivity].
+  destruct scr as [sp|]; cbn [next_cmd launch_cmd sbind]; [|reflexivity].
+  now rewrite get_selected_list.
+Qed.
+
+Theorem src_run_next_retro_is_model : forall (f : fs) (bs : Z),
+  src_run_next_retrospective_step f SInput bs = result_of_plan Retro bs (plan_of Retro true bs f).
+Proof.
+  intros f bs. unfold src_run_next_retrospective_step, plan_of. cbn [tree_after fold_left].
+  rewrite src_examine_is_model.
+  destruct (examine true bs f) as [[[[i j] meta] scr]|w s]; cbn [sres_of_xres sbind result_of_plan]; [|reflexivity].
+  assert (Tail :
+    (dos acts <- (if (i =? 0) && (j =? 0)
+                  then dos a <- launch_cmd (([] ++ [ARmTree (i, j)]) ++ [AMkIter (fst (i, j)); AMkPlate (i, j)]) (i, j) (Some (LInit SInput)); SOk a
+                  else dos a <- (if j =? 0
+                                 then if is_none (test_screen_of (tree_after f (([] ++ [ARmTree (i, j)]) ++ [AMkIter (fst (i, j)); AMkPlate (i, j)])) (0, 0))
+                                      then SRaised (([] ++ [ARmTree (i, j)]) ++ [AMkIter (fst (i, j)); AMkPlate (i, j)]) 1
+                                      else dos a <- launch_cmd (([] ++ [ARmTree (i, j)]) ++ [AMkIter (fst (i, j)); AMkPlate (i, j)]) (i, j)
+                                                      (first_cmd scr (test_screen_of (tree_after f (([] ++ [ARmTree (i, j)]) ++ [AMkIter (fst (i, j)); AMkPlate (i, j)])) (0, 0)));
+                                           SOk a
+                                 else dos r <- theta_chunks (tree_after f (([] ++ [ARmTree (i, j)]) ++ [AMkIter (fst (i, j)); AMkPlate (i, j)]))
+                                                 (([] ++ [ARmTree (i, j)]) ++ [AMkIter (fst (i, j)); AMkPlate (i, j)]) (i, 0);
+                                      dos a <- launch_cmd (([] ++ [ARmTree (i, j)]) ++ [AMkIter (fst (i, j)); AMkPlate (i, j)]) (i, j)
+                                                 (next_cmd scr r (get_selected f i));
+                                      SOk a);
+                       SOk a);
+     SOk (true, acts))
+    = result_of_plan Retro bs
+        (if (i =? 0) && (j =? 0) then PActs ([ARmTree (i, j); AMkIter i; AMkPlate (i, j)] ++ [ALaunch (i, j) (LInit SInput)])
+         else if j =? 0
+              then if has_training f (0, 0)
+                   then match scr with
+                        | Some sp => PActs ([ARmTree (i, j); AMkIter i; AMkPlate (i, j)] ++ [ALaunch (i, j) (LFirst sp (SFile (0, 0) KTraining))])
+                        | None => PActs ([ARmTree (i, j); AMkIter i; AMkPlate (i, j)] ++ [AFail 9])
+                        end
+                   else PActs ([ARmTree (i, j); AMkIter i; AMkPlate (i, j)] ++ [AFail 1])
+              else PActs ([ARmTree (i, j); AMkIter i; AMkPlate (i, j)] ++ [next_action f i j scr]))).
+  { cbn [app fst].
+    destruct ((i =? 0) && (j =? 0)) eqn:E0; [reflexivity|].
+    destruct (j =? 0) eqn:Ej.
+    - assert (N : (0, 0) <> (i, j)) by (intros E; injection E as E1 E2; subst i j; discriminate E0).
+      pose proof (get_plate_after f (i, j) (0, 0) N) as H. cbn [fst] in H.
+      unfold test_screen_of, has_training. rewrite H.
+      destruct (match get_plate f (0, 0) with Some d => match f_training d with Some _ => true | None => false end | None => false end);
+        cbn [is_none]; [|reflexivity].
+      destruct scr; reflexivity.
+    - rewrite (next_step_tail f i j scr Ej). unfold next_action.
+      destruct (has_thetas_dist f (i, 0)); [destruct scr|]; reflexivity. }
+  destruct meta as [m|]; cbn [is_some sunwrap sbind].
+  - destruct (m <=? 0); [reflexivity | exact Tail].
+  - exact Tail.
+Qed.
+
+Theorem src_run_next_prosp_is_model : forall (f : fs) (bs : Z),
+  src_run_next_prospective_step f SInput bs = result_of_plan Prosp bs (plan_of Prosp true bs f).
+Proof.
+  intros f bs. unfold src_run_next_prospective_step, plan_of. cbn [tree_after fold_left].
+  rewrite src_examine_is_model.
+  destruct (examine true bs f) as [[[[i j] meta] scr]|w s]; cbn [sres_of_xres sbind result_of_plan]; [|reflexivity].
+  cbn [app fst].
+  destruct (j =? 0) eqn:Ej; [reflexivity|].
+  rewrite (next_step_tail f i j (Some SInput) Ej). unfold next_action.
+  destruct (has_thetas_dist f (i, 0)); reflexivity.
+Qed.
+
+(* ---- the value a call hands back to main() ---- *)
+Definition src_run_next (md : mode) (f : fs) (bs : Z) : sres (bool * list action) :=
+  match md with
+  | Retro => src_run_next_retrospective_step f SInput bs
+  | Prosp => src_run_next_prospective_step f SInput bs
+  end.
+
+Theorem src_run_next_is_model : forall md f bs,
+  src_run_next md f bs = result_of_plan md bs (plan_of md true bs f).
+Proof. intros [|] f bs; [apply src_run_next_retro_is_model | apply src_run_next_prosp_is_model]. Qed.
+
+Lemma plan_acts_shape md fixed bs f acts :
+  plan_of md fixed bs f = PActs acts -> exists a b c x, acts = [a; b; c; x].
+Proof.
+  unfold plan_of. destruct (examine fixed bs f) as [[[[i j] meta] scr]|w s]; [|discriminate].
+  destruct md.
+  - destruct (match meta with Some m => m <=? 0 | None => false end); [discriminate|].
+    destruct ((i =? 0) && (j =? 0)); [intros H; injection H as <-; cbn [app]; repeat eexists|].
+    destruct (j =? 0); [|intros H; injection H as <-; cbn [app]; repeat eexists].
+    destruct (has_training f (0, 0)); [destruct scr|]; intros H; injection H as <-; cbn [app]; repeat eexists.
+  - destruct (j =? 0); intros H; injection H as <-; cbn [app]; repeat eexists.
+Qed.
+
+(* whenever the model says a call returns b to main() (call_returns: it was not interrupted, the script did not raise,
+   the pipeline's exit status was 0), b is the value the translated function returns *)
+Theorem call_returns_is_source : forall md bs n f e b,
+  call_returns md bs (snd (attempt md true bs n f e)) = Some b ->
+  exists acts, src_run_next md f bs = SOk (b, acts).
+Proof.
+  intros md bs n f e b. rewrite src_run_next_is_model. unfold attempt.
+  destruct (plan_of md true bs f) as [w s| |acts] eqn:Ep; cbn [snd call_returns result_of_plan].
+  - discriminate.
+  - intros H; injection H as <-. eexists; reflexivity.
+  - destruct (plan_acts_shape _ _ _ _ _ Ep) as (a0 & b0 & c0 & x & ->).
+    destruct (e_k e <? 4)%nat; cbn [snd call_returns]; [discriminate|].
+    cbn [nth rev app]. destruct x as [s|i|s|s l|w]; cbn [snd call_returns]; try discriminate.
+    destruct ((length (pubs_of (outputs n (fold_left (fun f a => apply_action a f) (firstn 3 [a0; b0; c0; ALaunch s l]) f) l) (e_order e))
+               <=? e_k e - 4)%nat && complete_run md l (outputs n (fold_left (fun f a => apply_action a f) (firstn 3 [a0; b0; c0; ALaunch s l]) f) l));
+      [|discriminate].
+    intros H; injection H as <-. eexists; reflexivity.
+Qed.
